@@ -478,13 +478,20 @@ pub fn run_c10(ctx: &Ctx) -> i32 {
             let mut rng = ctx.sub_rng(&format!("pv{n}"), vi as u64);
             let inj = [Inject::None, Inject::DupNull, Inject::SumOverflow, Inject::Block, Inject::Fee, Inject::None][vi % 6];
             let is_near = vi >= vectors;
-            let (s, p) = if is_near {
+            let (mut s, p) = if is_near {
                 let j = vi - vectors;
                 rep.count("private_vectors_near_equal");
                 near_equal_vector(&mut rng, n, j % 4, j % 8 >= 4)
             } else {
                 random_vector(&mut rng, n, inj)
             };
+            if is_near && (vi - vectors) % 8 == 7 {
+                // all slots dummy: every real-slot check is vacuous, the header must still be forced to zero
+                rep.count("private_vectors_all_dummy");
+                for x in s.iter_mut() {
+                    x.block_hash = [F::ZERO; 4];
+                }
+            }
             let children: Vec<Vec<F>> = s.iter().map(|x| x.to_pis()).collect();
             let pins = w.pins(&children, &p);
             let honest = w.cso.run(&[], &pins, false);
@@ -532,13 +539,41 @@ pub fn run_c10(ctx: &Ctx) -> i32 {
                 return rep.finish(ctx, 1);
             }
         };
-        for vi in 0..ctx.tier.pick(3usize, 16) {
+        let pub_vectors = ctx.tier.pick(3usize, 16);
+        // shape vectors after the random ones: all inners dummy (every per-inner check is vacuous, so nothing but the
+        // wrapper's own arithmetic pins the header), all dummy with hostile contents, exactly one real inner at each index
+        let shapes = 2 + m;
+        for vi in 0..pub_vectors + shapes {
             if ctx.over_budget() {
                 break;
             }
             let mut rng = ctx.sub_rng(&format!("qv{m}x{n}"), vi as u64);
             let inj = [PubInject::None, PubInject::Block, PubInject::Asset, PubInject::Fee][vi % 4];
-            let inners = random_inners(&mut rng, m, n, inj);
+            let mut inners = random_inners(&mut rng, m, n, if vi >= pub_vectors { PubInject::None } else { inj });
+            if vi >= pub_vectors {
+                let j = vi - pub_vectors;
+                rep.count("public_vectors_shape");
+                for (i, inner) in inners.iter_mut().enumerate() {
+                    let keep_real = j >= 2 && i == j - 2;
+                    if keep_real {
+                        if inner[3..7].iter().all(|x| *x == F::ZERO) {
+                            inner[3] = f(rng.gen_range(1..P));
+                        }
+                    } else {
+                        for k in 3..7 {
+                            inner[k] = F::ZERO;
+                        }
+                        if j == 0 {
+                            // a well-formed all-zero dummy inner apart from the constant header fields
+                            for k in 1..inner.len() {
+                                if k != 0 {
+                                    inner[k] = F::ZERO;
+                                }
+                            }
+                        }
+                    }
+                }
+            }
             let addr = rand_d4(&mut rng);
             let pins = w.pins(&inners, &addr);
             let honest = w.cso.run(&[], &pins, false);
@@ -568,7 +603,7 @@ pub fn run_c10(ctx: &Ctx) -> i32 {
                     }
                 }
             };
-            hints::sweep(&w.cso, &[], &pins, ctx.tier.pick(2, 1), vi, thorough, &rep, &on_accept);
+            hints::sweep(&w.cso, &[], &pins, if vi >= pub_vectors { 1 } else { ctx.tier.pick(2, 1) }, vi, thorough, &rep, &on_accept);
         }
     }
     // gadget: digest equality on equal / one-limb-neighbour / several-limb / alias pairs, every generator overridden
